@@ -29,7 +29,7 @@ def check(tier):
             'inputs of any length up to the stated object size, no loop unwound: counted as proved obligations. '
             'Layers (b)/(c): Data::jsonEscape/jsonUnescape (round trip, and the escaped text is one string token for the real '
             'jsmn_parse_string) and the token walk of Data::fromJSON (every read of the token array inside the allocation, no '
-            'pop/back on an empty stack, values attached to the enclosing container, termination) are mechanically extracted to C; '
+            'pop/back on an empty stack, values attached to the enclosing container, object keys and string atoms taken from token text that went through jsonUnescape, termination) are mechanically extracted to C; '
             'the walk is checked against the CONTRACT of jsmn_parse (tokens_ok), whose structural clauses are checked bounded against '
             'the real jsmn.c. These layers are BOUNDED and reported in the bounded_* counters only. Data::toJSON, Data tree building and '
             'Event<->Data are C++ containers outside CBMC\'s reach and are not covered.')
